@@ -41,6 +41,8 @@ Clauses(S, o) ==
      <<"neighbors.nodes", \A k \in DOMAIN o.nbr : Range(o.nbr[k][3]) = NodeNbrs(S, o.nbr[k][1], o.nbr[k][2])>>,
      <<"neighbors.edges", \A k \in DOMAIN o.enbr : Range(o.enbr[k][3]) = EdgeNbrs(S, o.enbr[k][1], o.enbr[k][2])>>,
      <<"lookup", \A k \in DOMAIN o.lookup : o.lookup[k][2] = Lookup(S, Range(o.lookup[k][1]))>>,
+     <<"lookup.nodes", \A k \in DOMAIN o.nlookup :
+          o.nlookup[k][2] = SelectSeq(S.nodes, LAMBDA n : S.n2e[n] = Range(o.nlookup[k][1]))>>,
      <<"duplicates", DuplicatesOK(S, o.dups)>>,
      <<"isolates", o.iso = IsolatesOf(S, FALSE) /\ o.isoig = IsolatesOf(S, TRUE)>>,
      <<"singletons", o.single = SingletonsOf(S)>>,
